@@ -669,6 +669,7 @@ func checkC20(c *Ctx, r *Report) {
 	checkConfigLiveness(c, r, fields)
 
 	ruleEarlyExitInventory(c, r, "C20.d", 4, "core/arbitrators", "cmd", "generator/routes", "generator/swagen")
+	ruleErrDrops(c, r, "C20.d", "core/arbitrators", "cmd", "definitions", "generator", "core/pipeline")
 	// every element filter in these packages is a reviewed one
 	ruleSkipInventory(c, r, "C20.d", loadSkipTable(c.VerifDir), 4, "core/arbitrators")
 }
